@@ -205,6 +205,8 @@ def interface_shape(chk, units):
                     continue
                 if recqn.startswith("bspline::exceptions::"):
                     continue
+                if "::internal::" in recqn:
+                    continue   # helper classes of the implementation (accumulators, builders) are not API value types
                 is_assign = d.get("op") in ASSIGN_OPS
                 # an &&-qualified member can only be called on an expiring object (temporary / std::move): consuming it is
                 # not a mutation of a named operand
